@@ -225,14 +225,18 @@ def dac3(rng):
     return box(b"dac3", b.bytes())
 
 
-def descr(tag: int, payload: bytes) -> bytes:
-    """MPEG-4 descriptor with the shortest length encoding"""
+def descr(tag: int, payload: bytes, width: int = 0) -> bytes:
+    """MPEG-4 descriptor (ISO/IEC 14496-1 8.3.3): the length in 7-bit groups, most significant
+    first; `width` > 0 pads the length field to that many bytes (0x80 0x80 0x80 0xNN is what
+    most muxers write)"""
     n = len(payload)
     lens = [n & 0x7F]
     n >>= 7
     while n:
         lens.insert(0, 0x80 | (n & 0x7F))
         n >>= 7
+    while len(lens) < width:
+        lens.insert(0, 0x80)
     return bytes([tag]) + bytes(lens) + payload
 
 
@@ -254,10 +258,11 @@ def esds(rng):
     b.put(1, 0)                                 # extensionFlag
     while b.n % 8:
         b.put(1, 0)
-    asc = b.bytes() + (rbytes(rng, rng.choice([0, 0, 3])))
+    asc = b.bytes() + (rbytes(rng, rng.choice([0, 0, 3, 130])))
+    width = rng.choice([0, 0, 4, 2])
     dcd = struct.pack(">BB", 0x40, (rng.choice([5, 4]) << 2) | (rng.randrange(2) << 1) | 1)
     dcd += bnd(rng, 24).to_bytes(3, "big") + struct.pack(">II", bnd(rng, 32), bnd(rng, 32))
-    dcd += descr(5, asc)
+    dcd += descr(5, asc, width)
     # URL_Flag stays 0: ISO/IEC 14496-14 forbids URL-referenced streams inside an MP4 file
     es_flags = rng.choice([0, 0, 0x80, 0x20, 0xA0]) | rng.randrange(32)
     es = struct.pack(">HB", bnd(rng, 16), es_flags)
@@ -268,8 +273,8 @@ def esds(rng):
         es += bytes([len(url)]) + url
     if es_flags & 0x20:
         es += struct.pack(">H", bnd(rng, 16))
-    es += descr(4, dcd) + descr(6, bytes([2]))
-    return full(b"esds", 0, 0, descr(3, es))
+    es += descr(4, dcd, width) + descr(6, bytes([2]), rng.choice([0, width]))
+    return full(b"esds", 0, 0, descr(3, es, width))
 
 
 def visual_entry(rng, typ=None, children=b""):
